@@ -70,11 +70,15 @@ def main():
     fired = {}
     rc, o = sh(f"git apply {diff}", cwd="/repo")
     try:
-        for c in manifest["checks"]:
-            pid = c["property_id"]
-            rcc, oc = sh(f"./check {pid} --tier quick --no-evidence", cwd=VERIF, timeout=600)
+        from concurrent.futures import ThreadPoolExecutor
+
+        def _one(pid):
+            rcc, oc = sh(f"./check {pid} --tier quick --no-evidence", cwd=VERIF, timeout=900)
             viol = [l for l in oc.splitlines() if "VIOLATED" in l or l.startswith("ANALYSIS-ERROR")]
-            fired[pid] = {"exit": rcc, "reports": [v[:400] for v in viol[:6]]}
+            return pid, {"exit": rcc, "reports": [v[:400] for v in viol[:6]]}
+        with ThreadPoolExecutor(int(os.environ.get("VERIFY_SEED_JOBS", "8"))) as ex:
+            for pid, res in ex.map(_one, [c["property_id"] for c in manifest["checks"]]):
+                fired[pid] = res
     finally:
         sh("git checkout -- .", cwd="/repo")
     out["checks_with_change"] = {k: v for k, v in fired.items() if v["exit"] != 0}
